@@ -60,7 +60,7 @@ CONTRACTS = {
         ],
     ),
     'generate_data_for_ranking': dict(
-        strings='opaque',
+        strings='opaque', frame=True,
         params={'combination': 'tuple[str,str]', 'reference_model_features': 'list[str]', 'args': ARGS_RANK, 'tmp_df': FRAME_INT},
         requires=[('no_reference_model', 'args.reference_model_JSON == ""'),
                   ('names', f'({_C0} in tmp_df.columns) and ({_C1} in tmp_df.columns) and ({_LAB} in tmp_df.columns)')],
@@ -73,7 +73,7 @@ CONTRACTS = {
         ],
     ),
     'get_importances_estimate_pairwise': dict(
-        strings='opaque',
+        strings='opaque', frame=True,
         params={'combination': 'tuple[str,str]', 'reference_model_features': 'list[str]', 'args': ARGS_RANK, 'tmp_df': FRAME_INT},
         requires=[('no_reference_model', 'args.reference_model_JSON == ""'),
                   ('names', f'({_C0} in tmp_df.columns) and ({_C1} in tmp_df.columns) and ({_LAB} in tmp_df.columns)'),
@@ -86,6 +86,7 @@ CONTRACTS = {
         ensures=[('names_kept', f'result[0] == {_C0} and result[1] == {_C1}')],
     ),
     'numba_mi': dict(
+        frame=True,
         params={'vector_first': 'int64[:]', 'vector_second': 'int64[:]', 'heuristic': 'str',
                 'mi_stratified_sampling_ratio': 'real'},
         requires=[
